@@ -433,3 +433,21 @@ def must_pass_edges(g, node):
             if not found:
                 res.append((b, lab))
     return res
+
+
+def dominates(g, a, b):
+    """Every path from entry to node b passes node a."""
+    if a is b:
+        return True
+    seen = set()
+    stack = [g.entry]
+    while stack:
+        n = stack.pop()
+        if n.id in seen or n is a:
+            continue
+        seen.add(n.id)
+        if n is b:
+            return False
+        for m, lab in n.succ:
+            stack.append(m)
+    return True
